@@ -329,6 +329,10 @@ func runC14(r *mon.Run) {
 		if !snapPoint(lp).equal(before) {
 			w.Fail("c14/NewSchnorrPublicKeyFromPoint:operand", "the constructor modified its argument")
 		}
+		// the caller goes on using ITS point (accumulator patterns: acc.Add(acc, G) per key)
+		wreckPoint(lp, i)
+		w.Class("c14:frompoint:source-destroyed-afterwards")
+		checkSchnorrPub(w, "NewSchnorrPublicKeyFromPoint (after the caller changed the point it had passed)", k, P.P)
 		k2 := bitcoin.NewSchnorrPublicKeyFromECDSA(mustPub(P.P))
 		checkSchnorrPub(w, "NewSchnorrPublicKeyFromECDSA", k2, P.P)
 		if !k.Equal(k2) {
